@@ -226,6 +226,7 @@ class Scn:
                                                   # machine is `class Sub(Base): <e2> = Base.<e1>`: the transitions
                                                   # declared for e1 carry e2 (only) in the subclass
     decl_style: str = "list"                      # how `event=` is written: list of names | placeholder Event() objects | "a b"
+                                                  # | eventobj: also `name = Event(<transitions>)` class attributes
     listener_kind: str = "class"                  # class | eq (all listeners compare equal) | hooks (one generic
                                                   # class, callbacks stored as instance attributes)
 
@@ -921,13 +922,26 @@ def build(scn: Scn, rt: Runtime, cls_name=None, picklable=False):
         else:
             tl = arrow(ti, tr, event=[EVENTS[e] for e in tr.events], **kw)
         tls.append(tl)
+    # events declared as explicit `Event(<transitions>, name=...)` objects; the decorators of a transition that is
+    # the only one of its (only) event go through the Event object: `@go.cond`, `@go.unless`, `@go.on` ...
+    ev_obj = {}
+    if scn.decl_style == "eventobj" and not scn.alias_sub and not any(t.any for t in scn.trans):
+        from statemachine import Event
+        for e in sorted({e for t in scn.trans for e in t.events}):
+            carriers = [ti for ti, t in enumerate(scn.trans) if e in t.events]
+            union = tls[carriers[0]]
+            for ti in carriers[1:]:
+                union = union | tls[ti]
+            ns[EVENTS[e]] = Event(union, name=f"Ev {e}")
+            if len(carriers) == 1 and scn.trans[carriers[0]].events == [e]:
+                ev_obj[carriers[0]] = ns[EVENTS[e]]
     # decorators
     for c in scn.cbs:
         if c.style != "decorator":
             continue
         fn = make_fn(rt, c, with_self=True)
         if c.at[0] == "t":
-            deco = getattr(tls[c.at[1]], c.group)
+            deco = getattr(ev_obj.get(c.at[1], tls[c.at[1]]), c.group)
         else:
             deco = getattr(states[c.at[1]], c.group)
         ns[c.name] = deco(fn)
